@@ -777,10 +777,12 @@ class loader( reader ):
                         # the file )
                         # We may have been AWAITING the newly opened file's first record, so the state
                         # alone doesn't tell us whether this is its first record.
-                        if self.state not in (self.INITIAL, self.SWITCHING) and not self._opened and (
-                                self._ts is None or ts > self._ts ):
-                            log.debug( "%s Playback releasing strict for next open: %s > %s", self, ts, self._ts )
-                            self._strict	= False
+                        # Only a record that advances self._ts (below) may release it; a corrupt
+                        # record or a note with a later timestamp does not advance self._ts, so the
+                        # next open must (still) be strict, or it would find this same file again.
+                        release		= self.state not in (self.INITIAL, self.SWITCHING) and not self._opened
+                    else:
+                        release		= False
                     self._opened	= False
 
                     if self.state in (self.INITIAL, self.SWITCHING, self.AWAITING):
@@ -820,6 +822,9 @@ class loader( reader ):
                         # A new value; if <ts> is monotonic and increasing, append <ts>,<regs> to
                         # future and generate an event with <ts>,<data>; otherwise, log/ignore it.
                         if self._ts is None or ts >= self._ts:
+                            if release and ( self._ts is None or ts > self._ts ):
+                                log.debug( "%s Playback releasing strict for next open: %s > %s", self, ts, self._ts )
+                                self._strict= False
                             self._ts	= ts
                             events.append( {
                                 'timestamp':	ts,
